@@ -35,7 +35,7 @@ struct TaskRec {
 
 struct Query { int kind; int task; uint64_t call, ret; int result; };
 
-enum StepKind { S_EXEC, S_STATUS, S_CANCEL, S_SNAP, S_RELEASE, S_SPIN, S_QUIESCE, S_CLEANUP, S_REINIT, S_WAIT_STARTED, S_MARK_PARK_BEGIN, S_MARK_PARK_END, S_LOOP_GAP };
+enum StepKind { S_EXEC, S_STATUS, S_CANCEL, S_SNAP, S_RELEASE, S_SPIN, S_QUIESCE, S_CLEANUP, S_REINIT, S_WAIT_STARTED, S_MARK_PARK_BEGIN, S_MARK_PARK_END, S_LOOP_GAP, S_WAIT_END };
 struct Step { StepKind k; int a = 0, b = 0, c = 0, d = 0; };
 
 struct IPool {
@@ -178,6 +178,10 @@ void run_step(Scenario *Sp) {
             if (S.ready && S.pool->snapshot(th, idle, doing, undo)) {
                 if ((int)th > S.mx) vh::viol("bound/threads-exceed-max", vh::fmt("snapshot().thread_num=%zu > max_thread_num=%d", th, S.mx));
                 if (idle > th) vh::viol("bound/idle-exceeds-threads", vh::fmt("snapshot(): idle %zu > threads %zu", idle, th));
+                // taken under the pool's own lock: a waiting task with no worker at all can only be rescued by a later
+                // submit; execute() creates a worker inside the same critical section whenever none can take the task
+                if (undo > 0 && th == 0)
+                    vh::viol("progress/waiting-task-with-no-worker", vh::fmt("snapshot(): %zu tasks waiting, thread_num=0 (idle=%zu doing=%zu): nobody will run them unless another task is submitted", undo, idle, doing));
                 vh::counter("snapshots");
             }
             break;
@@ -193,6 +197,21 @@ void run_step(Scenario *Sp) {
             if (ti < (int)S.tasks.size() && S.tasks[ti]->accepted && S.tasks[ti]->start_count.load() == 0 && ++S.quiesce_polls < 100000) {
                 vc::sleep_us(100); advance = false;
             } else S.quiesce_polls = 0;
+            break;
+        }
+        case S_WAIT_END: {   // busy-wait (bounded) until task a's body has returned, then a tiny extra spin: the next step lands
+                             // right where the worker re-takes the lock, looks for more work and may decide to retire
+            int ti = st.a;
+            if (ti < (int)S.tasks.size() && S.tasks[ti]->accepted) {
+                auto t0 = std::chrono::steady_clock::now();
+                while (S.tasks[ti]->end_count.load(std::memory_order_relaxed) == 0 &&
+                       std::chrono::steady_clock::now() - t0 < std::chrono::milliseconds(3)) {}
+                // the worker needs ~1-5 us (uninstrumented) to ~20-100 us (TSan) from the end of the body to its retire
+                // decision: cover both ranges
+                long spin_ns = (st.b % 4 == 0) ? (long)st.b * 250 : (long)st.b * 2500;
+                auto t1 = std::chrono::steady_clock::now();
+                while (std::chrono::steady_clock::now() - t1 < std::chrono::nanoseconds(spin_ns)) {}
+            }
             break;
         }
         case S_LOOP_GAP: {
@@ -282,12 +301,14 @@ void gen(vh::Rng &r, Scenario &S, vh::Sig &sig) {
         }
         // "retire race": with min < max a surplus worker retires as soon as it finds no work; keep submitting
         // short tasks at about the moment the previous one ends, so that execute() lands around that decision
-        if (!S.work_thread && S.mn < S.mx && r.chance(1, 4)) {
-            int m = 10 + (int)r.below(50);
+        if (!S.work_thread && S.mn < S.mx && r.chance(1, 3)) {
+            int m = 20 + (int)r.below(100);
             static const int gaps[] = {1, 1, 5, 5, 30, 100};
             for (int i = 0; i < m; ++i) {
                 add(S_EXEC, (int)r.range(-2, 2), r.chance(3, 4) ? 0 : 1, -1, r.chance(1, 3)); ++ntasks_total;
-                add(S_SPIN, r.pick(gaps));
+                if (r.chance(2, 3)) add(S_WAIT_END, ntasks_total - 1, (int)r.below(60));
+                else add(S_SPIN, r.pick(gaps));
+                if (i > 0 && r.chance(1, 2)) { add(S_SNAP); }
                 if (r.chance(1, 8)) add(S_STATUS, ntasks_total - 1);
             }
             vh::counter("retire_race_bursts");
